@@ -268,6 +268,98 @@ def gen_u(rng, ws, tot):
     return F(rng.getrandbits(53), 2**53)
 
 
+def gen_mutation(rng, d1):
+    """an in-place update of a MUTABLE distribution after it has been sampled and queried: dict item assignment /
+    del / pop / update / clear + refill on DictDistribution and SoftmaxDistribution objects; append / remove on
+    the caller's list a UniformDistribution was built from.  None = no episode for this case."""
+    kind = d1["kind"]
+    if kind == "uniform":
+        if d1.get("seq") != "list" or rng.random() > .4:
+            return None
+        cur = spec_ids(d1)
+        ops = []
+        for _ in range(rng.randint(1, 3)):
+            if cur and rng.random() < .5:
+                j = rng.randrange(len(cur))
+                ops.append(["remove", enc(UNIVERSE[POS_OF_ID[cur[j]][0]])])
+                cur.pop(j)
+            else:
+                free = [i for i in range(NID) if i not in cur]
+                i_ = rng.choice(free)
+                ops.append(["append", enc(UNIVERSE[rng.choice(POS_OF_ID[i_])])])
+                cur.append(i_)
+        return {"ops": ops, "use_between": rng.random() < .5}
+    if kind not in ("dict", "pairs", "softmax") or rng.random() > .45:
+        return None
+    evs = list(d1["events"])
+    def anyev():
+        return enc(UNIVERSE[rng.randrange(len(UNIVERSE))])
+    def wt():
+        return rng.choice(DYADIC + ["0", "0", "1/3", "1/1073741824"])
+    ops = []
+    r = rng.random()
+    if r < .25:     # clear and refill, often to a ONE-POINT distribution
+        n_ = rng.choice([1, 1, 2, 3])
+        ops.append(["clear_refill", [[anyev(), rng.choice(DYADIC[1:])] for _ in range(n_)]])
+    else:
+        for _ in range(rng.randint(1, 4)):
+            q_ = rng.random()
+            if q_ < .3 and evs:       # an existing event drops to probability zero
+                ops.append(["set", rng.choice(evs), "0"])
+            elif q_ < .55:            # a new (or existing) event gets weight
+                ops.append(["set", anyev() if rng.random() < .7 or not evs else rng.choice(evs), wt()])
+            elif q_ < .7 and evs:
+                ops.append(["del", rng.choice(evs)])
+            elif q_ < .8:
+                ops.append(["pop", rng.choice(evs) if evs and rng.random() < .7 else anyev()])
+            else:
+                ops.append(["update", [[anyev(), wt()] for _ in range(rng.randint(1, 2))]])
+    return {"ops": ops, "use_between": rng.random() < .4}
+
+
+def apply_mutation(case, pre_items):
+    """the contents the mutated object must have, by Python's own dict / list semantics (ids of the events)"""
+    mu = case["mutation"]
+    if case["d1"]["kind"] == "uniform":
+        cur = [dec(e) for e in case["d1"]["events"]]
+        for op in mu["ops"]:
+            if op[0] == "append":
+                cur.append(dec(op[1]))
+            else:
+                cur.remove(dec(op[1]))
+        return {"kind": "uniform", "events": [enc(e) for e in cur], "seq": "list"}
+    d = {}
+    for e, p in pre_items:
+        d[dec(e)] = vlib.frac(p)
+    for op in mu["ops"]:
+        if op[0] == "set":
+            d[dec(op[1])] = F(op[2])
+        elif op[0] == "del":
+            d.pop(dec(op[1]), None)
+        elif op[0] == "pop":
+            d.pop(dec(op[1]), None)
+        elif op[0] == "update":
+            d.update({dec(e): F(w) for e, w in op[1]})
+        elif op[0] == "clear_refill":
+            d.clear()
+            for e, w in op[1]:
+                d[dec(e)] = F(w)
+    return {"kind": "dict", "events": [enc(e) for e in d], "weights": [str(w) for w in d.values()], "rep": "dict",
+            "exact_floats": True}
+
+
+def derive_case(case, res):
+    """the case whose d1 is the object AFTER the in-place update: judged by the whole pipeline like any other"""
+    post = apply_mutation(case, res["d1"]["items"])
+    n_ = len(post["events"])
+    c2 = dict(case)
+    c2.update(case["mutation"]["overrides"])
+    c2["d1"] = post
+    c2["mutation"] = None
+    c2["derived_from_mutation"] = True
+    return c2
+
+
 def gen_case(rng):
     d1, d2 = gen_dist(rng, p_empty=.015), gen_dist(rng, p_empty=.05)
     if rng.random() < .1:       # numeric events only: expectation() with its default real_function applies
@@ -324,11 +416,19 @@ def gen_case(rng):
     if default_real:    # expectation() with the default real_function (identity) on numeric events
         for i in sup1:
             real_ids[i] = NUMVAL[i]
-    kern = {i: gen_dist(rng, nmax=3, p_empty=.05) for i in sup1}
+    mutation = gen_mutation(rng, d1)
+    if mutation:
+        mutation["overrides"] = {"default_real": False, "neg": None, "shadow": None}
+    mut_ids = set()
+    if mutation:
+        for op in mutation["ops"]:
+            evs = [op[1]] if op[0] in ("set", "del", "pop", "append", "remove") else [e for e, _ in op[1]]
+            mut_ids |= {eid(e) for e in evs}
+    kern = {i: gen_dist(rng, nmax=3, p_empty=.05) for i in sorted(set(sup1) | mut_ids)}
     kern_shared = bool(sup1) and rng.random() < .15
     if kern_shared:     # the kernel hands out ONE distribution object for every event
         one_k = gen_dist(rng, nmax=4)
-        kern = {i: one_k for i in sup1}
+        kern = {i: one_k for i in kern}
     shadow = None
     if rng.random() < .6:       # same class, same events, other numbers: built and used before d1
         shadow = dict(d1)
@@ -360,7 +460,8 @@ def gen_case(rng):
         "proj": [[enc(v), enc(UNIVERSE[POS_OF_ID[proj_ids[ID[v]]][0]])] for v in UNIVERSE],
         "like": [[enc(v), like_ids[ID[v]]] for v in UNIVERSE],
         "real": [[enc(v), real_ids[ID[v]]] for v in UNIVERSE],
-        "kern": [[enc(UNIVERSE[POS_OF_ID[i][0]]), kern[i]] for i in sup1],
+        "kern": [[enc(UNIVERSE[POS_OF_ID[i][0]]), kern[i]] for i in sorted(kern)],
+        "mutation": mutation,
         "a": a, "b": b, "ab_int": ab_int, "default_real": default_real, "shadow": shadow,
         "kern_shared": kern_shared, "tiny_decides": tiny_decides, "scalar_image": scalar_image,
         "gdraws": gdraws, "mixed_order": [rng.randrange(64) for _ in range(12)], "neg": [enc(UNIVERSE[neg[0]]), enc(UNIVERSE[neg[1]])],
@@ -611,6 +712,8 @@ def oracle(case, res, subnormal=False):
     if isinstance(ex, (dict, str)) or not close(vlib.frac(ex), wantx, scale=sum(abs(g[x]) * p for x, p in m1.items())):
         bad["expectation"] = "expectation is not the probability-weighted sum"
     chk("normalize", {x: p / mass1 for x, p in m1.items()} if mass1 > 0 else {}, defined=mass1 > 0)
+    if res.get("fresh_same") is False:
+        bad["sample-seed"] = "an updated distribution and an equal freshly built one gave different seeded sample sequences"
     # equal seeds, equal sequences: whatever the distributions are
     bt = res.get("batches") or {}
     if bt.get("same") is False:
@@ -806,6 +909,30 @@ def run(ctx):
     impl = ctx.impl("c11_impl.py", {"cases": cases}, shards=min(ctx.jobs, 4 if tier == "quick" else 16))["results"]
 
     timing["impl_s"] = round(time.time() - t0, 1)
+    # in-place update episodes: the object AFTER the update becomes d1 of a derived case, judged like any other
+    n_generated = len(cases)
+    origin = list(range(len(cases)))
+    mut_problems = []
+    for i in range(n_generated):
+        res = impl[i]
+        if "error" in res or not cases[i].get("mutation"):
+            continue
+        mu = res.get("mutated")
+        if not isinstance(mu, dict) or "error" in mu or "error" in mu.get("result", {}):
+            mut_problems.append((i, "C11:mutation:raises:" + str((mu or {}).get("error", (mu or {}).get("result", {}).get("error", "?"))).split(":")[0],
+                                 {"mutated": mu}, True))
+            continue
+        try:
+            c2 = derive_case(cases[i], res)
+        except (KeyError, ValueError) as ex:
+            mut_problems.append((i, "C11:mutation:cannot-derive-expected-contents", {"error": repr(ex)}, False))
+            continue
+        r2 = mu["result"]
+        r2["fresh_same"] = mu.get("fresh_same")
+        r2["fresh_items_same"] = mu.get("fresh_items_same")
+        cases.append(c2)
+        impl.append(r2)
+        origin.append(i)
     stats = {"exact": 0, "inexact": 0, "order_drift": 0}
     cnt = {"out_of_quantifier": 0, "table_prob_nonmember_tuple_probes": 0,
            "table_prob_nonmember_tuple_anomalies": 0, "boundary_draws": 0, "float_boundary_ambiguous": 0,
@@ -824,6 +951,7 @@ def run(ctx):
            "and_common_mass_below_2^-50": 0, "tiny_scalars": 0, "near_tie_large_dists": 0, "non_dyadic_dists": 0,
            "supports_of_10_or_more": 0, "kernel_shared_object": 0,
            "and_subnormal_common_mass_unnormalised_answers": 0, "projection_image_mixes_str_and_numbers": 0,
+           "in_place_update_episodes": 0, "in_place_update_to_one_point": 0,
            "table_projection_image_mixes_str_and_numbers": 0, "seeded_batches_k>1": 0, "global_generator_consumed": 0,
            "generator_consumption_drift": 0, "sample_mirror_drift": 0, "sample_k_shape_drift": 0, "mixed_sequence_draws": 0}
     reps = {}
@@ -865,11 +993,18 @@ def run(ctx):
     draws_of = {}
 
     def viol(sig, i, extra, found):
-        d = {"case": cases[i]}
+        d = {"case": cases[origin[i]]}      # a derived case is replayed through the case it was derived from
+        if origin[i] != i:
+            d["after_in_place_update"] = {"ops": cases[origin[i]]["mutation"]["ops"], "expected_contents": cases[i]["d1"]}
         d.update(extra)
         ctx.violation(sig, d, found=found)
 
+    for i_, sig_, extra_, found_ in mut_problems:
+        viol(sig_, i_, extra_, found_)
+
     def add_softmax(i, nm, sp, items):
+        if origin[i] != i:      # d2 and the kernels of a derived case are the objects of its parent: proved there
+            return
         goals, probs = softmax_goals(sp, items)
         fin = [F(w) for w in sp["weights"] if w != "-inf"]
         if max(fin) - fin[0] >= 100 or (sp["weights"][0] == "-inf"):
@@ -1287,6 +1422,13 @@ def run(ctx):
                         problems["sample"] = "sample(k=%d) of %s returned an event of probability zero" % (k_, nm)
         nops += 4
 
+        if case.get("derived_from_mutation"):
+            cnt["in_place_update_episodes"] += 1
+            cnt["in_place_update_to_one_point"] += len(items1) == 1
+            if res.get("fresh_same") is False:
+                problems["sample-seed"] = "an updated distribution and an equal freshly built one gave different seeded sample sequences"
+            if res.get("fresh_items_same") is False:
+                problems["reuse"] = "an updated distribution lists other items than an equal freshly built one"
         # ---- second-order uses of the same objects ----
         r2 = res.get("isnorm_custom")
         if r2 is not None and abs(abs(mass1 - 1) - F(1, 1024)) > F(1, 10**9):
@@ -1379,7 +1521,7 @@ def run(ctx):
                 "numeric with zeros or boolean, scripted draws incl. u = 0, 1-2^-53 and exact cumulative boundaries, 6 seeded draws; "
                 "distinct = structural hash of (d1, d2, functions); non-trivial = every generated case (>= 1 entry, all operations run)" % (len(UNIVERSE), NID),
         "samples": [{"case": {k: v for k, v in cases[0].items() if k != "universe"}, "impl": impl[0]}] if cases else [],
-        "cases": len(cases), "distributions_by_kind": kinds_count, "kind_pairs": pair_count, "representations": reps,
+        "cases": n_generated, "derived_cases_after_in_place_update": len(cases) - n_generated, "distributions_by_kind": kinds_count, "kind_pairs": pair_count, "representations": reps,
         "probabilities_bit_exact": stats["exact"], "probabilities_within_tolerance": stats["inexact"],
         "order_drift": stats["order_drift"], "tolerance": str(TOL), "timing": timing,
         "extra_obligations": cnt["softmax_goals"], "extra_discharged": cnt["softmax_goals"] - len(sm_failed),
